@@ -5,7 +5,7 @@
    validation rests on. *)
 From Avo Require Import Base.Prelude.
 From stdpp Require Import gmap.
-From Avo Require Import Base.MaskSet Model.IR Model.RegFile Model.Liveness Model.Alloc Model.Cleanup Model.Pipeline Model.Sem Proofs.LivenessProofs Proofs.AllocProofs Proofs.SimProofs Proofs.SimLink Proofs.SimValidator Proofs.LivenessTerm Proofs.AllocLoop Proofs.AllocCorrect Proofs.AllocSim Proofs.BindProofs.
+From Avo Require Import Base.MaskSet Model.IR Model.RegFile Model.Liveness Model.Alloc Model.Cleanup Model.Pipeline Model.Sem Proofs.LivenessProofs Proofs.AllocProofs Proofs.SimProofs Proofs.SimLink Proofs.SimValidator Proofs.LivenessTerm Proofs.AllocLoop Proofs.AllocCorrect Proofs.AllocSim Proofs.BindProofs Model.CFG Model.NodeSem Proofs.CleanupSem Proofs.CFGSem Proofs.NodeMachine.
 Open Scope N_scope.
 
 (* the liveness used by the allocator is exactly path liveness (C02), in particular it is complete:
@@ -48,6 +48,46 @@ Theorem regalloc_preserves_semantics :
       /\ (forall l, LIn r j1 l -> R1 l = R1' (rename (sigma_of al) l)).
 Proof. exact validated_allocation_preserves_semantics. Qed.
 Print Assumptions regalloc_preserves_semantics.
+
+(* ... AND THAT MACHINE IS THE FUNCTION BODY.  Take the node list `ns` of a function (labels, comments,
+   instructions), executed by the small-step semantics of Model/NodeSem.v over a register file and a
+   memory, where each instruction computes (`sem`) from the values of its declared input locations
+   and memory, writes its declared output locations, and transfers control as its flags allow
+   (C04/C09 contracts).  `pr` lists per instruction the declared reads/writes and the successors
+   the CFG rules demand.  Then every execution of the body from any point to any later instruction
+   is an execution of the indexed machine above, and if the validator accepts the allocation the
+   renamed code reaches the same program point with the same memory and with registers that agree,
+   through the allocation, on everything live there. *)
+Theorem every_execution_of_the_body_is_preserved :
+  forall (val memt : Type) (sem : instr -> list val -> memt -> list val * memt * ctl)
+         (ns : list node) (pr : prog_regs_t) (ud : instr -> list loc * list loc) (al : list (N * N)),
+  (forall i vs m outs m' l, sem i vs m = (outs, m', CGoto l) -> is_branch i = true /\ target_label i = Some l) ->
+  (forall i vs m outs m', sem i vs m = (outs, m', CNext) -> is_terminal i = false /\ is_unconditional_branch i = false) ->
+  (forall i vs m outs m' c, sem i vs m = (outs, m', c) -> List.length outs = List.length (snd (ud i))) ->
+  List.length pr = ninstr ns ->
+  (forall j i x, List.nth_error (instructions ns) j = Some i -> List.nth_error pr j = Some x ->
+     regs_locs (fst (fst x)) = fst (ud i) /\ regs_locs (snd (fst x)) = snd (ud i) /\ snd x = spec_succs ns j i) ->
+  allocation_valid al pr = true ->
+  exists r, liveness (liveness_fuel (p pr)) (p pr) = Some r /\
+  forall fuel k R R' m k' R1 m1,
+    is_suffix k ns ->
+    (forall l, LIn r (index_at ns k) l -> R l = R' (rename (sigma_of al) l)) ->
+    run (St val memt) (exec val memt sem ud) ns fuel k (R, m) = Running k' (R1, m1) ->
+    (index_at ns k' < ninstr ns)%nat ->
+    exists n R1',
+      mrun val memt (F val memt sem ns) (List.map (rename_instr (sigma_of al)) (P pr)) n (index_at ns k, R', m) = Some (index_at ns k', R1', m1)
+      /\ (forall l, LIn r (index_at ns k') l -> R1 l = R1' (rename (sigma_of al) l)).
+Proof.
+  intros val memt sem ns pr ud al Hg Hn Ho Hlen Hud Hv.
+  destruct (regalloc_preserves_semantics val memt (F val memt sem ns) pr al Hv
+              (F_follows_cfg val memt sem ns pr ud Hg Hn Ho Hlen Hud)
+              (F_outs val memt sem ns pr ud Hg Hn Ho Hlen Hud)) as (r & Hl & Hsim).
+  exists r. split; [exact Hl|]. intros fuel k R R' m k' R1 m1 Hsuf Hrel Hrun Hlt.
+  destruct (node_run_is_machine_run val memt sem ns pr ud Hg Hn Ho Hlen Hud fuel k R m k' R1 m1 Hsuf Hrun Hlt) as (n & _ & Hm).
+  destruct (Hsim n _ R R' m _ Hrel Hm) as (j1 & R2 & R2' & m2 & E & Hm' & Hrel').
+  injection E as <- <- <-. exists n, R2'. split; [exact Hm'|exact Hrel'].
+Qed.
+Print Assumptions every_execution_of_the_body_is_preserved.
 
 (* THE ALLOCATOR ITSELF, FOR EVERY PROGRAM.  The model of pass.Liveness and pass.AllocateRegisters
    (the graph colouring of pass/alloc.go, literally: Add / AddInterference / update / mostrestricted /
